@@ -59,7 +59,7 @@ PCarriers(doc, x, k) ==
 
 \* O line: positions of the segment items
 OSegIdx(doc, x) == SelectSeq([j \in DOMAIN x.refs |-> j], LAMBDA j : x.refs[j].id \in SegNames(doc))
-OSegs(doc, x) == [k \in DOMAIN OSegIdx(doc, x) |-> x.refs[OSegIdx(doc, x)[k]]]
+OSegs(doc, x) == OrderedToPath(x.refs, LAMBDA it : it.id \in SegNames(doc))
 \* edge items between the k-th and (k+1)-th segment item
 OBetween(doc, x, k) == LET sx == OSegIdx(doc, x) IN SubSeq(x.refs, sx[k] + 1, sx[k + 1] - 1)
 ENamed(doc, id) == {j \in Idx(doc, {"E"}) : doc[j].name = id}
@@ -154,6 +154,25 @@ Convertible(doc, x) ==
     [] x.rt = "P" -> TRUE
     [] x.rt = "O" -> OModelled(doc, x)
     [] OTHER -> FALSE
+\* a trace alignment has no GFA1 form: the edge (and a path through such an edge)
+\* may be refused, dropped, or written with the overlap `*`
+TraceE(x) == x.rt = "E" /\ Star(x) /\ x.f[5] # "*"
+\* GFA2 wants the edge implied between two adjacent segments of an O line to be
+\* unique; whether an edge in the opposite direction between the same oriented
+\* segments counts is not said, so such a path may be refused as ambiguous
+Touches(g, sa, sb) ==
+  LET a == Ors(g.s1, g.o1) b == Ors(g.s2, g.o2) IN
+  \/ <<a, b>> \in {<<sa, sb>>, <<sb, sa>>}
+  \/ <<InvOrs(a), InvOrs(b)>> \in {<<sa, sb>>, <<sb, sa>>}
+AmbiguousO(doc, x) ==
+  LET w == OSegs(doc, x) IN
+  \E k \in 1..(Len(w) - 1) :
+     /\ Len(OBetween(doc, x, k)) = 0
+     /\ Cardinality({j \in Idx(doc, {"E"}) : Touches(AsGeo(doc[j]), w[k], w[k + 1])}) > 1
+Refusable(doc, x) ==
+  \/ TraceE(x)
+  \/ x.rt = "O" /\ ((\E k \in Idx(doc, {"E"}) : TraceE(doc[k])) \/ AmbiguousO(doc, x))
+
 \* documents outside the quantifier of the property: a GFA1 edge with an
 \* unspecified overlap or one that does not fit its segments, a segment
 \* without length
@@ -167,10 +186,15 @@ Outside(doc, ver) ==
 
 MissClause(x) == CASE x.rt = "S" -> "C06.segment" [] x.rt \in {"P", "O"} -> "C06.path" [] OTHER -> "C06.pair"
 
-SegFails(x, y) ==
+\* (the harness reports the length of a GFA1 segment as slen = LN tag, else the
+\*  length of the sequence, and leaves LN out of the tags: S1Len of Convert.tla)
+SegOf(r) == Seg(r.name, r.seq, r.slen, TagSet(r))
+SegFails(ver, x, y) ==
   IF y.rt # "S" \/ y.name # x.name THEN {"C06.segment"} ELSE
-  (IF y.slen = x.slen /\ y.seq = x.seq THEN {} ELSE {"C06.segment"})
-  \cup (IF TagSet(y) = TagSet(x) THEN {} ELSE {"C06.tags"})
+  LET want == IF ver = "gfa1" THEN S1ToS2(SegOf(x)) ELSE S2ToS1(SegOf(x))
+      got == SegOf(y) IN
+  (IF got.len = want.len /\ got.seq = want.seq THEN {} ELSE {"C06.segment"})
+  \cup (IF got.tags = want.tags THEN {} ELSE {"C06.tags"})
 
 NameFails12(doc, x, y) ==
   IF x.name # "*" THEN (IF y.name = x.name THEN {} ELSE {"C06.name"})
@@ -212,7 +236,7 @@ Edge21(doc, x, y) ==
 
 \* x of doc (version ver) against y; outdoc as in Path12
 LineFails(doc, ver, x, y, outdoc) ==
-  CASE x.rt = "S" -> SegFails(x, y)
+  CASE x.rt = "S" -> SegFails(ver, x, y)
     [] x.rt \in {"L", "C"} -> Edge12(doc, x, y)
     [] x.rt = "E" -> Edge21(doc, x, y)
     [] x.rt = "P" -> Path12(doc, x, y, outdoc)
@@ -222,7 +246,8 @@ LineFails(doc, ver, x, y, outdoc) ==
 \* candidates: the lines of `out` that can be the counterpart of x
 TargetRts(x) == CASE x.rt = "S" -> {"S"} [] x.rt \in {"L", "C"} -> {"E"} [] x.rt = "E" -> {"L", "C"}
                   [] x.rt = "P" -> {"O"} [] x.rt = "O" -> {"P"} [] OTHER -> {}
-Cands(x, out) == {k \in Idx(out, TargetRts(x)) : (x.rt \in {"L", "C", "E"} /\ x.name = "*") \/ out[k].name = x.name}
+\* (segments and paths are found by name; an edge by its best match, its name is a clause)
+Cands(x, out) == {k \in Idx(out, TargetRts(x)) : x.rt \in {"L", "C", "E"} \/ out[k].name = x.name}
 
 -----------------------------------------------------------------------------
 (* whole documents *)
@@ -238,7 +263,9 @@ HdrFails(doc, out, target) ==
 Body(doc) == {k \in DOMAIN doc : doc[k].rt \notin {"H", "#"}}
 
 DocFails(doc, ver, out) ==
-  LET conv == {k \in Body(doc) : Convertible(doc, doc[k])}
+  LET conv0 == {k \in Body(doc) : Convertible(doc, doc[k])}
+      \* a refusable line that was dropped is not demanded
+      conv == {k \in conv0 : ~(Refusable(doc, doc[k]) /\ Cands(doc[k], out) = {})}
       PerLine(k) ==
         LET c == Cands(doc[k], out) IN
         IF c = {} THEN {MissClause(doc[k])}
@@ -253,7 +280,7 @@ DocFails(doc, ver, out) ==
 
 \* the document came back: equivalent line by line
 BackEquiv(doc, ver, x, y) ==
-  CASE x.rt = "S" -> SegFails(x, y) = {}
+  CASE x.rt = "S" -> y.rt = "S" /\ SegOf(y) = SegOf(x)
     [] x.rt \in {"L", "C"} ->
          /\ y.rt \in {"L", "C"} /\ TagSet(y) = TagSet(x) /\ (x.name # "*" => y.name = x.name)
          /\ ~Star(y) /\ Equiv1(AsG1(x), AsG1(y), LAMBDA n : LenIn(doc, n))
@@ -285,7 +312,8 @@ LineLevel(c, doc, j, a, api) ==
   IF x.rt \in {"H", "#"} \/ r[1] = "skip" THEN {}
   ELSE IF r[1] \notin Errs \cup {"ok"} THEN Tag(api, {"foreign"})
   ELSE IF Convertible(doc, x) THEN
-     IF r[1] # "ok" THEN Tag(api, {"C06.refused"})
+     IF r[1] # "ok" THEN (IF Refusable(doc, x) THEN {} ELSE Tag(api, {"C06.refused"}))
+     ELSE IF Len(outs) = 0 /\ Refusable(doc, x) THEN {}
      ELSE IF Len(outs) # 1 THEN Tag(api, {MissClause(x)})
      ELSE Tag(api, LineFails(doc, c.ver, x, outs[1], <<>>))
   ELSE  \* no counterpart: refused, or nothing written
@@ -296,7 +324,7 @@ AccLevel(c, doc, j) ==
   LET x == doc[j]
       r == c.ln[j][3]
       outs == Recs(r[2]) IN
-  IF x.rt \notin {"L", "C", "E"} \/ r[1] = "skip" THEN {}
+  IF x.rt \notin {"L", "C", "E"} \/ r[1] = "skip" \/ TraceE(x) THEN {}
   ELSE IF r[1] \notin Errs \cup {"ok"} THEN Tag("accessors", {"foreign"})
   ELSE IF Convertible(doc, x) THEN
      IF r[1] # "ok" \/ Len(outs) # 1 THEN Tag("accessors", {"C06.refused"})
@@ -307,7 +335,8 @@ Whole(c, doc, r, api) ==
   IF r[1] = "skip" THEN {}
   ELSE IF r[1] \notin Errs \cup {"ok"} THEN Tag(api, {"foreign"})
   ELSE IF r[1] # "ok" THEN
-     (IF \E k \in Body(doc) : ~Convertible(doc, doc[k]) THEN {} ELSE Tag(api, {"C06.refused"}))
+     (IF \E k \in Body(doc) : ~Convertible(doc, doc[k]) \/ Refusable(doc, doc[k]) THEN {}
+      ELSE Tag(api, {"C06.refused"}))
   ELSE Tag(api, DocFails(doc, c.ver, Recs(r[2])) \cup (IF r[3] = "ok" THEN {} ELSE {"C06.invalid-output"}))
 
 Back(c, doc) ==
